@@ -60,39 +60,59 @@ def opener_rule(ctx, crate):
             flag = b.local_expr(l)
     if not ctx.require(flag is not None, "R04-1", "R04-1|%s|flag" % b.path, "no bool parameter", b.path):
         return
-    w = FactWalker(b, lambda a: a == strip_sites(flag))
     opts = ("append", "write", "truncate", "create", "read", "create_new")
-
-    def step(bb, st):
-        facts, calls = st
-        t = b.term(bb)
-        if t["k"] == "call" and "OpenOptions" in b.callee(t) and last_seg(b.callee(t)) in opts:
-            a = b.call_args(bb)
-            v = mir.const_bool(a[1]) if len(a) > 1 else None
-            if v is True:
-                calls = calls | {last_seg(b.callee(t))}
-            elif v is None:
-                calls = calls | {last_seg(b.callee(t)) + "?"}
-        return [(nb, (f2, calls)) for nb, f2 in w.step(bb, facts)]
-
-    seen = mir.explore(b, 0, (frozenset(), frozenset()), step)
+    fl = strip_sites(flag)
     opens = [bb for bb, t, c in b.calls() if last_seg(c) == "open" and "OpenOptions" in c]
     ctx.require(len(opens) == 1, "R04-1", "R04-1|%s|open" % b.path, "expected one OpenOptions::open", b.path)
-    for bb, (facts, calls) in seen:
-        if bb not in opens:
-            continue
-        fv = dict(facts).get(strip_sites(flag))
-        if fv is True:
-            ok = {"append", "create"} <= calls and "truncate" not in calls and not any(c.endswith("?") for c in calls)
-            ctx.ob("R04-1", b.path, "append=true: options {append, create}, no truncate (got %s)" % sorted(calls), ok,
-                   key="R04-1|%s|append-true" % b.path, where=b.loc(bb), crate=crate.kind)
-        elif fv is False:
-            ok = {"write", "truncate", "create"} <= calls and "append" not in calls and not any(c.endswith("?") for c in calls)
-            ctx.ob("R04-1", b.path, "append=false: options {write, truncate, create}, no append (got %s)" % sorted(calls), ok,
-                   key="R04-1|%s|append-false" % b.path, where=b.loc(bb), crate=crate.kind)
-        else:
-            ctx.ob("R04-1", b.path, "open reached without a decision on the append flag", False,
-                   key="R04-1|%s|undecided" % b.path, where=b.loc(bb), crate=crate.kind)
+    for fv in (True, False):
+        w = FactWalker(b, lambda a: a == fl)
+
+        def argval(e):
+            e = strip_sites(e)
+            neg = False
+            while e[0] == "un" and e[1] == "Not":
+                e = e[2]
+                neg = not neg
+            v = mir.const_bool(e)
+            if v is None and e == fl:
+                v = fv
+            if v is None:
+                return None
+            return (not v) if neg else v
+
+        def step(bb, st):
+            facts, calls = st
+            t = b.term(bb)
+            if t["k"] == "call" and "OpenOptions" in b.callee(t) and last_seg(b.callee(t)) in opts:
+                a = b.call_args(bb)
+                v = argval(a[1]) if len(a) > 1 else None
+                name = last_seg(b.callee(t))
+                if v is True:
+                    calls = calls | {name}
+                elif v is False:
+                    calls = calls - {name}
+                else:
+                    calls = calls | {name + "?"}
+            return [(nb, (f2, calls)) for nb, f2 in w.step(bb, facts)]
+
+        seen = mir.explore(b, 0, (frozenset({(fl, fv)}), frozenset()), step)
+        reached = False
+        for bb, (facts, calls) in seen:
+            if bb not in opens:
+                continue
+            reached = True
+            unknown = any(c.endswith("?") for c in calls)
+            if fv:
+                ok = {"append", "create"} <= calls and "truncate" not in calls and not unknown
+                ctx.ob("R04-1", b.path, "append=true: options {append, create}, no truncate (got %s)" % sorted(calls), ok,
+                       key="R04-1|%s|append-true" % b.path, where=b.loc(bb), crate=crate.kind,
+                       detail=None if ok else "without O_APPEND a second writer of the same file (`cmd >> f 2>> f`, "
+                                              "`a >> f | b >> f`) overwrites instead of appending")
+            else:
+                ok = {"write", "truncate", "create"} <= calls and "append" not in calls and not unknown
+                ctx.ob("R04-1", b.path, "append=false: options {write, truncate, create}, no append (got %s)" % sorted(calls), ok,
+                       key="R04-1|%s|append-false" % b.path, where=b.loc(bb), crate=crate.kind)
+        ctx.require(reached, "R04-1", "R04-1|%s|reach-%s" % (b.path, fv), "open not reachable with append=%s" % fv, b.path)
     # call sites
     n = 0
     for body in crate.fns():
